@@ -130,6 +130,62 @@ Section MSim.
               | match goal with Et : threads _ !! ?i = None |- _ =>
                   eapply M_scan_end; [rewrite ma_lookup, Hsc; reflexivity | change (m_t (mv s)) with (tcls s); rewrite tcls_length by done; by apply lookup_ge_None] end
               | apply M_spawn_fail; [rewrite ma_lookup, Hsc; reflexivity | cbn; lia] ] end; fail).
-    all: lazymatch goal with Est : stack _ = ?f :: ?r |- _ => idtac f r end.
-  Admitted.
+    (* the scan finds a dormant thread and hands it the work *)
+    all: try (lazymatch goal with Et : threads _ !! ?i = Some ?th, H2 : busy ?th = false |- mstep _ (mv ?s1) =>
+              destruct (dormant_class s i th HS HP Et H2) as (x & Hx1 & Hx2);
+              erewrite (sim_wake s s1 a _ i x HS); cycle 1;
+              [ len_peel | len_peel | len_peel | exact Hlt | scne_tac | sceq_tac Hsc | rewrite Hsc; by eexists | qsame_tac
+              | intros t' Hne; rewrite bt_setstack, bt_updt, decide_False by done; reflexivity
+              | rewrite bt_setstack, bt_updt, decide_True by done; cbn [threads set]; rewrite Et; reflexivity
+              | by eapply lookup_lt_Some | exact Hx1
+              | apply M_scan_wake; [rewrite ma_lookup, Hsc; reflexivity | exact Hx2] ] end; fail).
+    (* a thread is spawned *)
+    all: try (lazymatch goal with |- mstep _ (mv (setstack (_ <| threads := _ ++ [?nth] |> <| actors := _ ++ [?nac] |>) _ ?st)) =>
+              rewrite (sim_spawn s a ac st nth nac HS Ea Hlt eq_refl eq_refl);
+              eapply M_spawn; [ rewrite ma_lookup, Hsc; reflexivity | cbn; lia | apply noscan; [done|]; locks; done ] end; fail).
+    (* the pool actor of thread t0 *)
+    all: try subst t.
+    all: subst a.
+    all: assert (Hlt0 : t0 < length (threads s)) by (pose proof HS as [L _ _ _ _ _ _]; apply lookup_lt_Some in Ea; unfold ncallers in Ea; lia).
+    all: destruct (lookup_lt_is_Some_2 _ _ Hlt0) as [th0 Et0].
+    all: assert (Hbt0 : bt s t0 = Some (busy th0)) by (unfold bt; by rewrite Et0).
+    all: try core_tab HK HQ; try congruence.
+    (* FTrecv: the woken thread starts *)
+    1: { rewrite Et0 in Et. injection Et as <-.
+         assert (Hb : busy th0 = true).
+         { pose proof (HP t0 th0 (stack ac) Et0 ltac:(by rewrite stacks_lookup, Ea)) as Hps. rewrite Est in Hps. unfold pool_state_ok in Hps.
+           rewrite E in Hps. by destruct (busy th0). }
+         lazymatch goal with |- mstep _ (mv ?s1) => erewrite (sim_pool s s1 t0 _ _ HS); cycle 1 end;
+         [ len_peel | len_peel | len_peel | scne_tac | sceq_tac Hsc | rewrite Hsc; reflexivity
+         | intros t' Hne; bt_peel; reflexivity | bt_peel; exact Hbt0 | exact Hlt0 | apply mq_keep; qsame_tac | ].
+         rewrite list_insert_id; [rewrite mview_eta; apply M_stutter|].
+         change (m_t (mv s)) with (tcls s). rewrite tcls_lookup, Hbt0, Hsc. cbn. by rewrite Hb. }
+    (* FTexam: nothing scheduled, the thread goes dormant *)
+    1: { lazymatch goal with |- mstep _ (mv ?s1) => erewrite (sim_pool s s1 t0 _ _ HS); cycle 1 end;
+         [ len_peel | len_peel | len_peel | scne_tac | sceq_tac Hsc | rewrite Hsc; reflexivity
+         | intros t' Hne; bt_peel; reflexivity | bt_peel; exact Hbt0 | exact Hlt0 | apply mq_keep; qsame_tac | ].
+         apply M_leave; [|by apply pending_le_fresh].
+         change (m_t (mv s)) with (tcls s). rewrite tcls_lookup, Hbt0, Hsc. reflexivity. }
+    (* FTexam: the thread takes the first Pending queue *)
+    1: { lazymatch goal with Eq : queues _ !! ?q = Some ?qq |- mstep _ (mv ?s1) => erewrite (sim_pool_q s s1 t0 _ _ q false HS); cycle 1;
+           [ len_peel | len_peel | len_peel | scne_tac | sceq_tac Hsc | rewrite Hsc; reflexivity
+           | intros t' Hne; bt_peel; reflexivity | bt_peel; exact Hbt0 | exact Hlt0 | pqne_tac | pqeq_tac Eq | rewrite (pq_self _ _ _ Eq); by eexists | ];
+           apply M_take;
+           [ change (m_t (mv s)) with (tcls s); rewrite tcls_lookup, Hbt0, Hsc; reflexivity
+           | rewrite mq_lookup, (pq_self _ _ _ Eq); unfold pendq; rewrite Hc; reflexivity ] end. }
+    (* FTrelnone: the thread is dormant *)
+    1: { lazymatch goal with |- mstep _ (mv ?s1) => erewrite (sim_pool s s1 t0 false _ HS); cycle 1 end;
+         [ len_peel | len_peel | len_peel | scne_tac | sceq_tac Hsc | rewrite Hsc; reflexivity
+         | intros t' Hne; rewrite bt_setstack, bt_updt, decide_False by done; reflexivity
+         | rewrite bt_setstack, bt_updt, decide_True by done; rewrite Et0; reflexivity | exact Hlt0 | apply mq_keep; qsame_tac | ].
+         eapply (M_thread _ t0 TLeaving TDormant); [|by right].
+         change (m_t (mv s)) with (tcls s). rewrite tcls_lookup, Hbt0, Hsc. reflexivity. }
+    (* FDRfin: the queue is drained, the thread returns to the schedule *)
+    lazymatch goal with Eq : queues _ !! ?q = Some ?qq |- mstep _ (mv ?s1) => erewrite (sim_pool_q s s1 t0 _ _ q false HS); cycle 1;
+      [ len_peel | len_peel | len_peel | scne_tac | sceq_tac Hsc | rewrite Hsc; reflexivity
+      | intros t' Hne; bt_peel; reflexivity | bt_peel; exact Hbt0 | exact Hlt0 | pqne_tac | pqeq_tac Eq | rewrite (pq_self _ _ _ Eq); by eexists | ];
+      rewrite (list_insert_id (m_q (mv s))) by (rewrite mq_lookup, (pq_self _ _ _ Eq); unfold pendq; by rewrite Hrun);
+      eapply (M_thread _ t0 TWorking THeading); [|by left];
+      change (m_t (mv s)) with (tcls s); rewrite tcls_lookup, Hbt0, Hsc; reflexivity end.
+  Qed.
 End MSim.
